@@ -143,6 +143,7 @@ def parseAttempt (s : String) : Option Attempt :=
 
 open Casket.Retry in
 def retryJudge (f : List String) (out : String) : String :=
+  if out.startsWith "hung" then "bad:never-gives-up:the retry loop was still running 20 s after the request (try_duration long past)" else
   match parseRetry f, out.splitOn "\t" with
   | some (c, _), [r, att] =>
     let res : Option Result := match r with
